@@ -50,6 +50,11 @@ func textEntries(text string) map[string]func() error {
 			_, err := transformer.TransformModuleFilesToModel([]transformer.ModuleFile{coreModule, {Name: "x.fga", Contents: text}}, "1.2")
 			return err
 		},
+		// the same contents under a file name the list already has (nothing says names are unique)
+		"TransformModuleFilesToModel/samename": func() error {
+			_, err := transformer.TransformModuleFilesToModel([]transformer.ModuleFile{coreModule, {Name: coreModule.Name, Contents: text}}, "1.2")
+			return err
+		},
 		"TransformJSONStringToDSL": func() error { _, err := transformer.TransformJSONStringToDSL(text); return err },
 		"LoadJSONStringToProto":    func() error { _, err := transformer.LoadJSONStringToProto(text); return err },
 		"TransformModFile":         func() error { _, err := transformer.TransformModFile(text); return err },
@@ -229,6 +234,18 @@ func punch(m *openfgav1.AuthorizationModel, kind string, site int) {
 	case "wildcard_and_relation":
 		if md := td.GetMetadata().GetRelations()[rel]; md != nil {
 			md.DirectlyRelatedUserTypes = append(md.DirectlyRelatedUserTypes, &openfgav1.RelationReference{Type: "user", RelationOrWildcard: &openfgav1.RelationReference_Wildcard{}})
+		}
+	case "restriction_empty_relation_first", "restriction_nil_wildcard_first", "restriction_nil_first":
+		// the same malformed entries at the HEAD of the list (nothing precedes them that a builder could fall back on)
+		if md := td.GetMetadata().GetRelations()[rel]; md != nil {
+			var rr *openfgav1.RelationReference
+			switch kind {
+			case "restriction_empty_relation_first":
+				rr = &openfgav1.RelationReference{Type: "user", RelationOrWildcard: &openfgav1.RelationReference_Relation{Relation: ""}}
+			case "restriction_nil_wildcard_first":
+				rr = &openfgav1.RelationReference{Type: "user", RelationOrWildcard: &openfgav1.RelationReference_Wildcard{}}
+			}
+			md.DirectlyRelatedUserTypes = append([]*openfgav1.RelationReference{rr}, md.DirectlyRelatedUserTypes...)
 		}
 	case "typedef_nil":
 		m.TypeDefinitions = append(m.TypeDefinitions, nil)
